@@ -1621,3 +1621,31 @@ def float_minmax(I, args, callee):
     if b != b:
         return a
     return max(a, b) if 'max' in callee else min(a, b)
+
+
+@model('AsPrimitive::as_')
+def as_primitive(I, args, callee):
+    q = I.parse_qualified(callee)
+    src = q[0].strip()
+    m = re.search(r'AsPrimitive<(\w+)>', q[1])
+    dst = m.group(1) if m else None
+    if src in INT_TYPES and dst in INT_TYPES:
+        return I.cast(args[0], src, dst, 'IntToInt')
+    if src in INT_TYPES and dst in ('f32', 'f64'):
+        return I.cast(args[0], src, dst, 'IntToFloat')
+    raise Unmodelled('AsPrimitive %s -> %s' % (src, dst))
+
+
+_SIZES = {'u8': 1, 'i8': 1, 'bool': 1, 'u16': 2, 'i16': 2, 'u32': 4, 'i32': 4, 'f32': 4, 'char': 4, 'u64': 8, 'i64': 8,
+          'f64': 8, 'usize': 8, 'isize': 8, 'u128': 16, 'i128': 16, '()': 0}
+
+
+@model('mem::size_of', 'size_of', 'mem::align_of', 'align_of')
+def mem_size_of(I, args, callee):
+    m = re.search(r'(?:size_of|align_of)::<(.*)>$', callee.strip())
+    t = m.group(1).strip() if m else ''
+    if t in _SIZES:
+        return _SIZES[t]
+    if t.startswith(('&', '*', 'Box<')):
+        return 16 if ('[' in t or 'str' in t or 'dyn' in t) else 8
+    raise Unmodelled('size_of::<%s>' % t)
